@@ -74,7 +74,7 @@ def _check_one(i):
     both = _CFG.get('both', False)
     res = {'name': ob.name, 'z3': None, 'z3_s': 0.0, 'cvc5': None, 'cvc5_s': 0.0,
            'model': None, 'reason': None}
-    r, tz, s = _z3_try(ob, _CFG.get('z3_quick', 2000))
+    r, tz, s = _z3_try(ob, _CFG.get('z3_quick', int(os.environ.get('PYVC_Z3_QUICK_MS', '2000'))))
     res['z3'], res['z3_s'] = str(r), round(tz, 3)
     text = None
     if r == z3.unknown or both:
